@@ -275,6 +275,36 @@ func ruleReadChunk(r *Report) {
 			h.Check(ok, "(*column.Collection).readChunk/commits-in-range", r.P.InstrPos(ins), "the index into the commit-id table is tested against its length", "the snapshot indexes the commit-id table with a block of the fill list without testing it against the table's length: the table is grown at commit time, the fill list when an offset is reserved, so Snapshot panics (index out of range) beside a transaction that holds a reserved offset in a block no commit has created yet")
 		})
 	}
+	// the number of blocks a snapshot (and an index back-fill) visits is bounded by the blocks a commit has
+	// reached: the fill list also holds the offsets open transactions have reserved, and the columns
+	// are grown to a block only when the first commit reaches it
+	if cf := r.Anchor("(*column.Collection).chunks"); cf != nil {
+		ok, n := true, 0
+		for _, ret := range returnsOf(cf) {
+			if len(ret.Results) != 1 {
+				continue
+			}
+			if k, isC := constInt(ret.Results[0]); isC && k == 0 {
+				continue
+			}
+			n++
+			if !dependsOn(ret.Results[0], func(z ssa.Value) bool {
+				cl, isC := z.(*ssa.Call)
+				if !isC || len(cl.Call.Args) != 1 {
+					return false
+				}
+				b, isBI := cl.Call.Value.(*ssa.Builtin)
+				if !isBI || b.Name() != "len" {
+					return false
+				}
+				f2, isF2 := loadedField(cl.Call.Args[0])
+				return isF2 && f2.Struct == "column.Collection" && f2.Field == "commits"
+			}, 6) {
+				ok = false
+			}
+		}
+		h.Check(ok && n > 0, "(*column.Collection).chunks/committed-extent", r.P.Pos(cf.Pos()), "the block count is bounded by the blocks a commit has reached", "the number of blocks is taken from the fill list alone: a block that only holds offsets reserved by open transactions is visited although the columns have not been grown to it, and Snapshot (or an index back-fill) indexes column storage out of range beside an open inserting transaction")
+	}
 	// writeState writes the id it was given, and the inserts from that fill slice
 	ws := r.Anchor("(*column.Collection).writeState")
 	if ws != nil {
@@ -1474,6 +1504,9 @@ func ruleExactReads(r *Report) {
 				} else if cc.IsInvoke() && cc.Method.Name() == "Read" {
 					bad, what = ins, "a bare Read"
 				}
+				if sc := cc.StaticCallee(); sc != nil && sc.Name() == "Read" && sc.Signature.Recv() != nil && !r.P.InLib(sc) {
+					bad, what = ins, "a bare Read (of "+Short(sc.String())+")"
+				}
 			})
 		})
 		n := fnName(fn)
@@ -1541,13 +1574,15 @@ func ruleSerialFields(r *Report) {
 		if sp.typ == "Buffer" {
 			// the write cursor is re-derived from the last header
 			ok := false
-			allInstrs(rd, func(ins ssa.Instruction) {
-				if s, isSt := ins.(*ssa.Store); isSt {
-					if fr, isF := fieldOf(s.Addr); isF && fr.Struct == "commit.Buffer" && fr.Field == "chunk" {
-						ok = true
+			for _, f := range deepFuncs(rd) {
+				allInstrs(f, func(ins ssa.Instruction) {
+					if s, isSt := ins.(*ssa.Store); isSt {
+						if fr, isF := fieldOf(s.Addr); isF && fr.Struct == "commit.Buffer" && fr.Field == "chunk" {
+							ok = true
+						}
 					}
-				}
-			})
+				})
+			}
 			h.Check(ok, "Buffer.ReadFrom/chunk", r.P.Pos(rd.Pos()), "cursor := last header's block", "Buffer.ReadFrom does not re-derive the current block from the last header: the next append for that block writes a duplicate header")
 		}
 	}
